@@ -58,6 +58,16 @@ fn ref_u128_le(b: &[u8], n: usize) -> u128 {
     v
 }
 
+pub struct Fwd<'a, B: Buf>(pub &'a mut B);
+macro_rules! fwd_get {
+    ($($m:ident($($a:ident: $t:ty),*) -> $r:ty),* $(,)?) => { $( pub fn $m(&mut self, $($a: $t),*) -> $r { <B as Buf>::$m(self.0, $($a),*) } )* };
+}
+impl<'a, B: Buf> Fwd<'a, B> {
+    pub fn remaining(&self) -> usize { <B as Buf>::remaining(self.0) }
+    pub fn chunk(&self) -> &[u8] { <B as Buf>::chunk(self.0) }
+    fwd_get!(__FWD_GETTERS__);
+}
+
 /// the next W model bytes of a data array at position p
 fn next<const N: usize, const W: usize>(data: &[u8; N], p: usize) -> [u8; W] {
     let mut m = [0u8; W];
@@ -90,10 +100,14 @@ IMPLS = {
     "step3": """let mut b = StepBuf::<N, 3> { data, len, pos: 0 };
     let mut b2 = b;
     let start = 0usize;""",
+    # Fwd forces dispatch through `impl Buf for &mut T` (deref_forward_buf!): plain method syntax on `&mut inner`
+    # auto-derefs to the inner type's own impl and never runs the forwarder
     "refmut": """let mut inner = StepBuf::<N, 2> { data, len, pos: 0 };
     let mut inner2 = inner;
-    let mut b = &mut inner;
-    let mut b2 = &mut inner2;
+    let mut r1 = &mut inner;
+    let mut r2 = &mut inner2;
+    let mut b = Fwd(&mut r1);
+    let mut b2 = Fwd(&mut r2);
     let start = 0usize;""",
     "boxed": """let inner = StepBuf::<N, 2> { data, len, pos: 0 };
     let mut b: Box<StepBuf<N, 2>> = Box::new(inner);
@@ -181,6 +195,20 @@ def generate(repo):
     fwd = src[t1:src.index("impl<T: Buf + ?Sized> Buf for &mut T")]
     fwd_methods = set(re.findall(r"fn\s+([a-z0-9_]+)\s*(?:<[^>]*>)?\(", fwd))
     getters = [m for m in methods if m.startswith("get_")]
+    sigs = []
+    for g_ in getters:
+        cc = classify(g_)
+        if cc is None:
+            continue
+        ty = cc["ty"]
+        if cc["kind"] == "fixed":
+            sigs.append("%s() -> %s" % (g_, ty))
+            sigs.append("try_%s() -> Result<%s, TryGetError>" % (g_, ty))
+        else:
+            sigs.append("%s(nbytes: usize) -> %s" % (g_, ty))
+            sigs.append("try_%s(nbytes: usize) -> Result<%s, TryGetError>" % (g_, ty))
+    global HDR_FILLED
+    HDR_FILLED = HDR.replace("__FWD_GETTERS__", ", ".join(sigs))
     inconc = []
     groups = {}
     out = None
@@ -200,7 +228,7 @@ def generate(repo):
         fixed = c["kind"] == "fixed"
         W = c["width"] if fixed else 8
         gname = ("w%d" % (W * 8)) if fixed else "var"
-        out = groups.setdefault(gname, [HDR])
+        out = groups.setdefault(gname, [HDR_FILLED])
         N = W + 1
         unwind = max(W + 2, 4)
         impls = ["symbuf", "cut", "step1", "step3", "refmut", "boxed"] + ROTATE
@@ -337,7 +365,7 @@ pub fn %s() {
 }
 """ % (g, name, call))
                 n_h += 1
-    out = groups.setdefault("w32", [HDR])
+    out = groups.setdefault("w32", [HDR_FILLED])
     out.append("""// @h props=C10 tier=quick flags=witness group=getters
 #[kani::proof]
 #[kani::unwind(12)]
